@@ -453,36 +453,102 @@ func runR083(c *core.Ctx) {
 	})
 	c.Check(init200, rel, "(*rootNode).ServeHTTP", "request context starts with status 200", serve.Pos(), "", "ResponseStatus is not initialised to http.StatusOK")
 	// nil status -> 500
-	par := core.Parents(serve)
+	_ = core.Parents
 	nil500 := false
 	hdr := false
 	errHeader := mustObj(c, rel, "ErrorResponseHeader")
+	// on every path on which the error's Status is known nil, the status field holds 500 when the header is written.  The
+	// status may travel through one local (a helper that returns it, spliced in; a default that is overridden).
+	statusLocal := map[types.Object]bool{}
 	ast.Inspect(serve.Body, func(n ast.Node) bool {
-		switch x := n.(type) {
-		case *ast.AssignStmt:
-			if len(x.Lhs) == 1 && isStatusField(x.Lhs[0]) {
-				if cv := core.ConstOf(inf, x.Rhs[0]); cv != nil && cv.ExactString() == "500" {
-					// on a branch where some .Status is nil
-					if core.GuardedByFact(inf, par, x, func(f core.Fact) bool {
-						e, nonNil, ok := core.NilTest(inf, f)
-						if !ok || nonNil {
-							return false
+		if as, ok := n.(*ast.AssignStmt); ok && len(as.Lhs) == len(as.Rhs) {
+			for i, l := range as.Lhs {
+				if isStatusField(l) {
+					if id, ok := core.Unparen(as.Rhs[i]).(*ast.Ident); ok {
+						if v, ok := inf.Uses[id].(*types.Var); ok && !v.IsField() {
+							statusLocal[v] = true
 						}
-						fv, isF := core.ObjOf(inf, e).(*types.Var)
-						return isF && fv.IsField() && core.NameOf(fv) == "Status"
-					}, nil) {
-						nil500 = true
 					}
 				}
 			}
-		case *ast.CallExpr:
-			if f := core.Callee(inf, x); f != nil && core.NameOf(f) == "Set" && len(x.Args) == 2 && core.ObjOf(inf, x.Args[0]) == errHeader {
+		}
+		if call, ok := n.(*ast.CallExpr); ok {
+			if f := core.Callee(inf, call); f != nil && core.NameOf(f) == "Set" && len(call.Args) == 2 && core.ObjOf(inf, call.Args[0]) == errHeader {
 				hdr = true
 			}
 		}
 		return true
 	})
-	c.Check(nil500, rel, "(*rootNode).ServeHTTP", "error response without status maps to 500", serve.Pos(), "", "no assignment of 500 on the Status == nil branch")
+	const (
+		vUnknown = 0
+		v500     = 1
+		vOther   = 2
+	)
+	// state = field class + 3*local class + 9*(Status known nil)
+	nilSeen, nilBad := false, ""
+	classOf := func(st int, e ast.Expr) int {
+		if cv := core.ConstOf(inf, e); cv != nil {
+			if cv.ExactString() == "500" {
+				return v500
+			}
+			return vOther
+		}
+		if id, ok := core.Unparen(e).(*ast.Ident); ok && statusLocal[core.ObjOf(inf, id)] {
+			return (st / 3) % 3
+		}
+		if isStatusField(e) {
+			return st % 3
+		}
+		return vOther
+	}
+	core.NewFlow(c.M, inf, serve.Body).Run(&core.Automaton{
+		Node: func(st int, n ast.Node) int {
+			switch x := n.(type) {
+			case *ast.AssignStmt:
+				if len(x.Lhs) == len(x.Rhs) {
+					field, local, known := st%3, (st/3)%3, st/9
+					nf, nl := field, local
+					for i, l := range x.Lhs {
+						if isStatusField(l) {
+							nf = classOf(st, x.Rhs[i])
+						} else if id, ok := core.Unparen(l).(*ast.Ident); ok && statusLocal[core.ObjOf(inf, id)] {
+							nl = classOf(st, x.Rhs[i])
+						}
+					}
+					st = nf + 3*nl + 9*known
+				}
+			case *ast.DeclStmt:
+				// var status int
+			}
+			for _, call := range core.CallsIn(n) {
+				if f := core.Callee(inf, call); f != nil && core.NameOf(f) == "WriteHeader" && st/9 == 1 {
+					nilSeen = true
+					if st%3 != v500 && nilBad == "" {
+						nilBad = c.M.Position(call.Pos())
+					}
+				}
+			}
+			return st
+		},
+		Edge: func(st int, facts []core.Fact) (int, bool) {
+			for _, f := range facts {
+				e, nonNil, ok := core.NilTest(inf, f)
+				if !ok {
+					continue
+				}
+				if fv, isF := core.ObjOf(inf, e).(*types.Var); isF && fv.IsField() && core.NameOf(fv) == "Status" {
+					if nonNil {
+						st = st % 9
+					} else {
+						st = st%9 + 9
+					}
+				}
+			}
+			return st, true
+		},
+	})
+	nil500 = nilSeen && nilBad == ""
+	c.Check(nil500, rel, "(*rootNode).ServeHTTP", "error response without status maps to 500", serve.Pos(), "", fmt.Sprintf("a path on which the error's Status is nil reaches WriteHeader: %v; status is not 500 there: %s", nilSeen, nilBad))
 	c.Check(hdr, rel, "(*rootNode).ServeHTTP", "error header set for error responses", serve.Pos(), "", "ErrorResponseHeader is never set")
 }
 
@@ -614,12 +680,27 @@ func runR085(c *core.Ctx) {
 	handlerT, _ := mustObj(c, rel, "handler").(*types.TypeName)
 	codec := pkgPath(c, "restlicodec")
 	isRecoverDefer := func(d *ast.DeferStmt) bool {
-		fl, ok := core.Unparen(d.Call.Fun).(*ast.FuncLit)
-		if !ok {
+		// the deferred function: a literal, or a function of the module that is deferred directly (recover() only works in
+		// the function that was deferred itself)
+		var body *ast.BlockStmt
+		inf := inf
+		if fl, ok := core.Unparen(d.Call.Fun).(*ast.FuncLit); ok {
+			body = fl.Body
+		} else if f := core.Callee(inf, d.Call); f != nil && c.M.InModule(f.Pkg()) {
+			if hd := c.M.Decl(f.Origin()); hd != nil && hd.Body != nil {
+				if hinf := c.M.InfoFor(hd.Pos()); hinf != nil {
+					body, inf = hd.Body, hinf
+				}
+			}
+		}
+		if body == nil {
 			return false
 		}
 		rec, stores := false, false
-		ast.Inspect(fl.Body, func(n ast.Node) bool {
+		ast.Inspect(body, func(n ast.Node) bool {
+			if _, nested := n.(*ast.FuncLit); nested {
+				return false // recover() in a nested literal does not recover the panic
+			}
 			switch x := n.(type) {
 			case *ast.CallExpr:
 				if id, ok := core.Unparen(x.Fun).(*ast.Ident); ok {
